@@ -22,10 +22,11 @@ func init() {
 			"(R9) lock pairing over the functions of package(s) database/storage/hashmap, database/storage/bbolt, database/storage/badger, database/storage/fstree, database/storage/sinkhole, database/storage, database/iterator: " + lockRuleText + ". " +
 			"(R10) no error returned by a storage backend, the controller or the database interface is discarded by code of the database packages (named exceptions: best-effort registry save). " +
 			"(R11) the read cache stores an entry without expiry only for records that have none (ttl < 0); a remaining lifetime of 0 still goes through SetWithExpire. " +
+			"(R12) decision tables of the metadata state functions over sign/ordering representatives: CheckValidity (invisible iff deleted or the absolute expiry lies before now), IsDeleted, GetRelativeExpiry (-1 without expiry, else the non-negative remainder), Update (relative expiry re-armed from now, creation time set once), SetRelativateExpiry (only non-negative TTLs). " +
 			"NOT decided: equivalence with a reference map over operation histories, operator semantics through the accessors, physical state after crashes.",
 		Rules: []ruleFn{c02R1, c02R2, c02R3, c02R4, c02R5, c02R6, c02R7, c02R8,
 			lockRuleFor("C02-R9", 9, []string{"database/storage/hashmap", "database/storage/bbolt", "database/storage/badger", "database/storage/fstree", "database/storage/sinkhole", "database/storage", "database/iterator"}, []string{}, map[string]string{}),
-			c02R10, c02R11},
+			c02R10, c02R11, c02R12},
 	})
 }
 
@@ -872,5 +873,164 @@ func c02R11(c *Ctx, r *Report) {
 	})
 	if n == 0 {
 		r.Undecided(rule, fnKey(fn), "no cache.Set call found")
+	}
+}
+
+// c02R12: metadata semantics tables.
+func c02R12(c *Ctx, r *Report) {
+	const rule = "C02-R12"
+	r.SetFloor(rule, 5)
+	const now = int64(1000)
+	metaInput := func(fields map[string]int64, extra func(v ssa.Value) (AV, bool)) func(v ssa.Value) (AV, bool) {
+		return func(v ssa.Value) (AV, bool) {
+			for f, val := range fields {
+				if fieldLoadOf(v, "database/record.Meta", f) {
+					return avInt(val), true
+				}
+			}
+			if call, ok := v.(*ssa.Call); ok && calleeName(&call.Call) == "time.Time.Unix" {
+				return avInt(now), true
+			}
+			if _, ok := v.(*ssa.Parameter); ok && v.Name() == "m" {
+				return AV{K: KNonNil}, true
+			}
+			if extra != nil {
+				return extra(v)
+			}
+			return AV{}, false
+		}
+	}
+	run := func(name string, fields map[string]int64, extra func(v ssa.Value) (AV, bool), outcome func(in ssa.Instruction, ev func(ssa.Value) AV) string) (string, bool) {
+		fn := c.Func(name)
+		if fn == nil {
+			return "", false
+		}
+		it := &Interp{Fn: fn, Input: metaInput(fields, extra), Outcome: outcome, FoldArith: true, MaxStates: 20000}
+		if !it.Run() {
+			return "", false
+		}
+		return strings.Join(outcomeLabels(it.Outcomes), "|"), true
+	}
+	// CheckValidity
+	{
+		var bad []string
+		n := 0
+		for _, del := range []int64{-5, 0, 5} {
+			for _, exp := range []int64{-3, 0, now - 1, now, now + 1} {
+				got, ok := run("database/record.(*Meta).CheckValidity", map[string]int64{"Deleted": del, "Expires": exp}, nil, retOutcome)
+				if !ok {
+					r.Undecided(rule, "database/record.(*Meta).CheckValidity", "function missing or not explorable")
+					return
+				}
+				n++
+				want := !(del > 0) && !(exp > 0 && exp < now)
+				if got != fmt.Sprintf("ret(%v)", want) {
+					bad = append(bad, fmt.Sprintf("Deleted=%d Expires=%d now=%d -> %s (expected %v)", del, exp, now, got, want))
+				}
+			}
+		}
+		r.Check(len(bad) == 0, rule, "database/record.(*Meta).CheckValidity / visibility table", fmt.Sprintf("%d valuations: visible iff not deleted and not past its expiry", n), strings.Join(firstN(bad, 4), "; "))
+	}
+	// IsDeleted
+	{
+		var bad []string
+		for _, del := range []int64{-5, 0, 1, 5} {
+			got, ok := run("database/record.(*Meta).IsDeleted", map[string]int64{"Deleted": del}, nil, retOutcome)
+			if !ok {
+				r.Undecided(rule, "database/record.(*Meta).IsDeleted", "function missing or not explorable")
+				return
+			}
+			if got != fmt.Sprintf("ret(%v)", del > 0) {
+				bad = append(bad, fmt.Sprintf("Deleted=%d -> %s", del, got))
+			}
+		}
+		r.Check(len(bad) == 0, rule, "database/record.(*Meta).IsDeleted / table", "deleted iff Deleted > 0 (negative values are relative expiries)", strings.Join(bad, "; "))
+	}
+	// GetRelativeExpiry
+	{
+		var bad []string
+		for _, exp := range []int64{0, now - 7, now, now + 7} {
+			got, ok := run("database/record.(*Meta).GetRelativeExpiry", map[string]int64{"Expires": exp}, nil, retOutcome)
+			if !ok {
+				r.Undecided(rule, "database/record.(*Meta).GetRelativeExpiry", "function missing or not explorable")
+				return
+			}
+			want := int64(-1)
+			if exp != 0 {
+				want = exp - now
+				if want < 0 {
+					want = 0
+				}
+			}
+			if got != fmt.Sprintf("ret(%d)", want) {
+				bad = append(bad, fmt.Sprintf("Expires=%d now=%d -> %s (expected %d)", exp, now, got, want))
+			}
+		}
+		r.Check(len(bad) == 0, rule, "database/record.(*Meta).GetRelativeExpiry / table", "-1 without expiry, else max(0, Expires-now)", strings.Join(bad, "; "))
+	}
+	// Update: stores
+	{
+		var bad []string
+		storeOutcome := func(in ssa.Instruction, ev func(ssa.Value) AV) string {
+			if st, ok := in.(*ssa.Store); ok {
+				if fr, ok := fieldOfAddr(st.Addr); ok && fr.Owner == "database/record.Meta" {
+					return fr.Name + "=" + ev(st.Val).String()
+				}
+			}
+			return ""
+		}
+		for _, created := range []int64{0, 77} {
+			for _, del := range []int64{-60, 0, 5} {
+				got, ok := run("database/record.(*Meta).Update", map[string]int64{"Created": created, "Deleted": del}, nil, storeOutcome)
+				if !ok {
+					r.Undecided(rule, "database/record.(*Meta).Update", "function missing or not explorable")
+					return
+				}
+				want := []string{fmt.Sprintf("Modified=%d", now)}
+				if created == 0 {
+					want = append(want, fmt.Sprintf("Created=%d", now))
+				}
+				if del < 0 {
+					want = append(want, fmt.Sprintf("Expires=%d", now-del))
+				}
+				sort.Strings(want)
+				if got != strings.Join(want, "|") {
+					bad = append(bad, fmt.Sprintf("Created=%d Deleted=%d -> writes %s (expected %s)", created, del, got, strings.Join(want, "|")))
+				}
+			}
+		}
+		r.Check(len(bad) == 0, rule, "database/record.(*Meta).Update / write table", "Modified=now; Created=now once; a relative expiry (negative Deleted) re-arms Expires=now+ttl", strings.Join(firstN(bad, 3), "; "))
+	}
+	// SetRelativateExpiry
+	{
+		var bad []string
+		storeOutcome := func(in ssa.Instruction, ev func(ssa.Value) AV) string {
+			if st, ok := in.(*ssa.Store); ok {
+				if fr, ok := fieldOfAddr(st.Addr); ok && fr.Owner == "database/record.Meta" {
+					return fr.Name + "=" + ev(st.Val).String()
+				}
+			}
+			return ""
+		}
+		for _, secs := range []int64{-1, 0, 30} {
+			got, ok := run("database/record.(*Meta).SetRelativateExpiry", nil, func(v ssa.Value) (AV, bool) {
+				if p, ok := v.(*ssa.Parameter); ok && p.Name() == "seconds" {
+					return avInt(secs), true
+				}
+				return AV{}, false
+			}, storeOutcome)
+			if !ok {
+				r.Undecided(rule, "database/record.(*Meta).SetRelativateExpiry", "function missing or not explorable")
+				return
+			}
+			want := ""
+			if secs >= 0 {
+				want = fmt.Sprintf("Deleted=%d", -secs)
+			}
+			if got != want {
+				bad = append(bad, fmt.Sprintf("seconds=%d -> writes %q (expected %q)", secs, got, want))
+			}
+		}
+		r.Check(len(bad) == 0, rule, "database/record.(*Meta).SetRelativateExpiry / write table", "a TTL >= 0 is stored as Deleted=-ttl, a negative TTL changes nothing", strings.Join(bad, "; "))
 	}
 }
